@@ -210,7 +210,21 @@ func threadOne(fn *ssa.Function) bool {
 					return unknown
 				}
 				other = resolve(other, i)
-				switch nilAt(other, C.Preds[i]) {
+				fact := nilAt(other, C.Preds[i])
+				if fact == NilUnknown {
+					// the test may be the predecessor's own branch, with C on exactly one side
+					P := C.Preds[i]
+					if pif, ok := P.Instrs[len(P.Instrs)-1].(*ssa.If); ok && P.Succs[0] != P.Succs[1] {
+						if tv, nilSucc, ok := NilTest(pif); ok && tv == other {
+							if P.Succs[nilSucc] == C {
+								fact = IsNil
+							} else {
+								fact = NonNil
+							}
+						}
+					}
+				}
+				switch fact {
 				case IsNil:
 					if x.Op == token.EQL {
 						return yes
